@@ -194,7 +194,7 @@ func (r RawSuite) Validate() error {
 
 func parseRawSuite(raw string) (SuiteConfig, error) {
 	parts := strings.Split(raw, ":")
-	if len(parts) < 3 {
+	if len(parts) != 3 {
 		return SuiteConfig{}, fmt.Errorf("invalid OCRA suite format: %q", raw)
 	}
 
@@ -203,7 +203,7 @@ func parseRawSuite(raw string) (SuiteConfig, error) {
 	dataInput := parts[2]
 
 	// minimal checks
-	if !strings.HasPrefix(parts[0], "OCRA-1") {
+	if parts[0] != "OCRA-1" {
 		return SuiteConfig{}, fmt.Errorf("unsupported OCRA version: %q", parts[0])
 	}
 
@@ -267,28 +267,14 @@ func parseDataInputTokens(cfg *SuiteConfig, input string) error {
 		switch {
 		case tokU == "C":
 			cfg.IncludeCounter = true
-		case strings.HasPrefix(tokU, "QN"):
-			cfg.IncludeChallenge = true
-			if len(tokU) == 4 {
-				// e.g. "QN08"
-				// parse 08 => ChallengeNumeric08, etc.
-				num := tokU[2:]
-				switch num {
-				case "08":
-					cfg.Challenge = ChallengeNumeric08
-				case "10":
-					cfg.Challenge = ChallengeNumeric10
-				default:
-					return fmt.Errorf("unsupported numeric challenge spec %q", tok)
-				}
+		case strings.HasPrefix(tokU, "QN"), strings.HasPrefix(tokU, "QA"), strings.HasPrefix(tokU, "QH"):
+			// e.g. "QN08": format letter (N, A or H) followed by the length 08 or 10
+			format, ok := challengeFormats[tokU]
+			if !ok {
+				return fmt.Errorf("unsupported challenge spec %q", tok)
 			}
-		case strings.HasPrefix(tokU, "QA"):
 			cfg.IncludeChallenge = true
-			// similar approach for alpha
-			// ...
-		case strings.HasPrefix(tokU, "QH"):
-			cfg.IncludeChallenge = true
-			// ...
+			cfg.Challenge = format
 		case strings.HasPrefix(tokU, "PSHA"):
 			cfg.IncludePassword = true
 			switch tokU {
@@ -311,15 +297,23 @@ func parseDataInputTokens(cfg *SuiteConfig, input string) error {
 				return fmt.Errorf("invalid time spec %q: %w", tok, err)
 			}
 			cfg.TimeStep = secs
-		case strings.HasPrefix(tokU, "S"): // session data e.g. "S064"?
+		case strings.HasPrefix(tokU, "S"): // session data: "S" or "Snnn", e.g. "S064"
+			if n := tokU[1:]; n != "" && (len(n) != 3 || strings.Trim(n, "0123456789") != "") {
+				return fmt.Errorf("invalid session spec %q", tok)
+			}
 			cfg.IncludeSession = true
-			// parse length if needed
 		default:
 			// unrecognized token
 			return fmt.Errorf("unknown data input token %q", tok)
 		}
 	}
 	return nil
+}
+
+var challengeFormats = map[string]ChallengeFormat{
+	"QN08": ChallengeNumeric08, "QN10": ChallengeNumeric10,
+	"QA08": ChallengeAlpha08, "QA10": ChallengeAlpha10,
+	"QH08": ChallengeHex08, "QH10": ChallengeHex10,
 }
 
 // parseTimeGranularity is an example that converts e.g. "1M" => 60, "2H" => 7200, "30S" => 30
